@@ -168,6 +168,7 @@ class ManyInputs(Family):
 
 
 class HugePush(Family):
+    no_history_pool = True       # cases are too heavy to be replayed in every ordered pair
     """subscripts containing one push of 2^24 - 1 / 2^24 / 2^24 + 1 bytes (PUSHDATA4 with a non-zero top length byte)
     whose data contains CODESEPARATOR bytes that must stay"""
     name = 'pushdata4_16MiB_subscript'
